@@ -184,3 +184,76 @@ Proof.
   split; [exact flow_encodes_short|]. split; [exact flow_encodes_indexed|]. split; [vm_compute; discriminate|].
   apply (layout_independent flow_row_model flow_value); [exact flow_encodes_short|exact flow_encodes_indexed].
 Qed.
+
+(* ================================================================== where layout DOES matter *)
+(* class AB: a: str = ""; b: str = ""        class RAB: m: AB = AB() *)
+Definition tAB : ty := TModel [(s!"a", (TStr, Some (VStr []))); (s!"b", (TStr, Some (VStr [])))] [] [].
+Definition vAB0 : value := VModel [(s!"a", VStr []); (s!"b", VStr [])].
+Definition rmAB : rowmodel := {| rm_ty := TModel [(s!"m", (tAB, Some vAB0))] [] []; rm_ctx := None |}.
+Definition rowAB (a b : str) : value := VModel [(s!"m", VModel [(s!"a", VStr a); (s!"b", VStr b)])].
+
+(* the record (a, b) spread over two columns / packed positionally in one cell *)
+Definition ab_spread (a b : str) : list (str * str) := [(s!"m.a", a); (s!"m.b", b)].
+Definition ab_positional (a b : str) : list (str * str) := [(s!"m", a ++ [sep0] ++ b)].
+
+(* plain text: nothing the cell syntax or str.strip() reacts to *)
+Definition plain (x : str) : bool :=
+  negb (is_nil x) && forallb (fun c => negb (is_special c) && negb (is_ws c) && negb (c =? tmp_char)) x.
+
+(* the unrestricted claim: a two-field record may always be packed positionally *)
+Definition positional_is_spread_full : Prop :=
+  forall a b, plain a = true -> plain b = true ->
+              parse_row rmAB (ab_positional a b) = parse_row rmAB (ab_spread a b).
+
+(* FALSE of the faithful model: when the first value is the NAME of a field, the two-entry cell
+   is read as ONE key;value pair (try_assign_as_kwarg on the whole value) *)
+Theorem positional_is_spread_refuted : ~ positional_is_spread_full.
+Proof.
+  intros H. specialize (H s!"b" s!"x" eq_refl eq_refl). vm_compute in H. discriminate.
+Qed.
+
+(* what the two layouts give for the witness (replayed on the real RowParser by harness/c09.py) *)
+Example positional_flip_witness :
+  parse_row rmAB (ab_spread s!"b" s!"x") = Ok (rowAB s!"b" s!"x")
+  /\ parse_row rmAB (ab_positional s!"b" s!"x") = Ok (rowAB [] s!"x").
+Proof. split; vm_compute; reflexivity. Qed.
+
+(* the same flip for ONE entry of a longer positional record: a list-valued positional argument
+   whose first element is a field name.   class TN: tags: List[str] = []; n: str = "" *)
+Definition tTN : ty := TModel [(s!"tags", (TList TStr, Some (VList []))); (s!"n", (TStr, Some (VStr [])))] [] [].
+Definition rmTN : rowmodel :=
+  {| rm_ty := TModel [(s!"m", (tTN, Some (VModel [(s!"tags", VList []); (s!"n", VStr [])])))] [] []; rm_ctx := None |}.
+Definition rowTN (tags : list str) (n : str) : value :=
+  VModel [(s!"m", VModel [(s!"tags", VList (map VStr tags)); (s!"n", VStr n)])].
+
+Example positional_entry_flip_witness :
+  parse_row rmTN [(s!"m.tags.1", s!"n"); (s!"m.tags.2", s!"x"); (s!"m.n", s!"foo")] = Ok (rowTN [s!"n"; s!"x"] s!"foo")
+  /\ parse_row rmTN [(s!"m", s!"n;x|foo")] = Ok (rowTN [] s!"foo")
+  /\ parse_row rmTN [(s!"m", s!"q;x|foo")] = Ok (rowTN [s!"q"; s!"x"] s!"foo").
+Proof. repeat split; vm_compute; reflexivity. Qed.
+
+(* the short header `message_text` looks the row type up in the RAW `type` cell, whereas the `type`
+   field itself is stripped: a padded type cell works with the long header and fails with the short one *)
+Definition flow_padded_short : list (str * str) :=
+  [(s!"type", s!" send_message"); (s!"message_text", s!"hi"); (s!"from", s!"start")].
+Definition flow_padded_long : list (str * str) :=
+  [(s!"type", s!" send_message"); (s!"mainarg_message_text", s!"hi"); (s!"from", s!"start")].
+Definition flow_unpadded_short : list (str * str) :=
+  [(s!"type", s!"send_message"); (s!"message_text", s!"hi"); (s!"from", s!"start")].
+
+Definition short_header_any_padding_full : Prop :=
+  forall cells cells', same_row (option_map strip (oget str_eqb cells (cx_sw_column flow_cx))) cells cells' ->
+                       flow_parse cells = flow_parse cells'.
+
+Theorem short_header_any_padding_refuted : ~ short_header_any_padding_full.
+Proof.
+  intros H. assert (Hs : flow_parse flow_padded_short = flow_parse flow_padded_long).
+  { apply H. vm_compute. same_row_tac. }
+  vm_compute in Hs. discriminate.
+Qed.
+
+Example padded_type_witness :
+  flow_parse flow_padded_short = Err EKey
+  /\ is_ok (flow_parse flow_padded_long) = true
+  /\ flow_parse flow_padded_long = flow_parse flow_unpadded_short.
+Proof. repeat split; vm_compute; reflexivity. Qed.
